@@ -131,9 +131,14 @@ def scenarios(tier):
                                'acts': [{'kind': 'remove', 'target': j, 'actor': actor, 't': 0, 'boom': True},
                                         {'kind': 'add_back', 'target': j, 'actor': actor, 't': t2, 'how': back}]}
             for n_prio in (2, -1):
+                for boom in (True, 'hard'):
+                    yield {'leg': 'fault_then_back', 'prios': v, 't': 0, 'steps': 4, 'n_prio': n_prio,
+                           'acts': [{'kind': 'addN', 'actor': actor, 't': 0},
+                                    {'kind': 'removeN', 'actor': actor, 't': 1, 'boom': boom},
+                                    {'kind': 'addN', 'actor': actor, 't': 2}]}
+                # an interrupted timestep (nothing removed), then a plain registration in a later timestep
                 yield {'leg': 'fault_then_back', 'prios': v, 't': 0, 'steps': 4, 'n_prio': n_prio,
-                       'acts': [{'kind': 'addN', 'actor': actor, 't': 0}, {'kind': 'removeN', 'actor': actor, 't': 1, 'boom': True},
-                                {'kind': 'addN', 'actor': actor, 't': 2}]}
+                       'acts': [{'kind': 'noop', 'actor': actor, 't': 0, 'boom': 'hard'}, {'kind': 'addN', 'actor': actor, 't': 1}]}
     # two systems registered mid-timestep, the first of which removes the second on its own first turn
     for v in vectors(3):
         n = len(v)
@@ -152,6 +157,15 @@ def scenarios(tier):
                            'acts': [{'kind': kind, 'target': target, 'actor': actor}]}
         yield {'leg': 'many_systems', 'prios': big, 't': 1, 'acts': [{'kind': 'cleanup', 'actor': actor}]}
         yield {'leg': 'many_systems', 'prios': big, 't': 0, 'acts': [{'kind': 'add', 'prio': 2, 'actor': actor}]}
+    # forty systems in bands plus one registered LAST whose priority lies mid-order: it retires (removes itself) and
+    # registers a successor of the same priority in the same timestep
+    for band in (3, 2, 1):
+        late = len(big)
+        for first in ('cleanup', 'remove'):
+            a1 = {'kind': 'cleanup', 'actor': late} if first == 'cleanup' else {'kind': 'remove', 'target': late, 'actor': late}
+            for p2 in (band, band - 1, band + 1):
+                yield {'leg': 'many_systems', 'prios': big + [band], 't': 1, 'steps': 4,
+                       'acts': [a1, {'kind': 'add', 'prio': p2, 'actor': late}]}
     if tier == 'thorough':
         for v in vectors(4):
             n = len(v)
@@ -166,6 +180,10 @@ def scenarios(tier):
 
 class Halt(Exception):
     pass
+
+
+class HardStop(BaseException):
+    """An interruption that is not an Exception (like KeyboardInterrupt / SystemExit raised inside a system)."""
 
 
 def run_scenario(case):
@@ -198,6 +216,8 @@ def run_scenario(case):
             for act in now:
                 act['done'] = True
                 perform(self, act)
+                if act.get('boom') == 'hard':
+                    raise HardStop(f'{self.key} is interrupted after its action')
                 if act.get('boom'):
                     raise Halt(f'{self.key} fails after its action')      # the driver catches it and carries on
 
@@ -311,6 +331,8 @@ def run_scenario(case):
                 unregister(sid)
                 register(objs[key])
                 events.append(('added', key))
+        elif kind == 'noop':
+            pass
         elif kind == 'add_pair':
             # two new systems are registered; the first of them is an actor itself: on its first turn it removes the
             # second one again
@@ -379,7 +401,7 @@ def run_scenario(case):
                 del events[:]
                 try:
                     model.execute()
-                except Halt:
+                except (Halt, HardStop):
                     # a system failed in the middle of the timestep: what ran so far is judged for order and
                     # double runs only; the caller carries on, which runs the interrupted timestep again
                     ev = list(events)
